@@ -891,6 +891,20 @@ fn order_key(f: &Finding) -> (usize, usize, String) {
 
 fn main_check(ctx: &Ctx) -> Outcome {
     let mut out = Outcome::default();
+    // the functions under test must not consult the environment: a few representative inputs under a cleared and two
+    // hostile settings of the colour-related variables (before any worker thread exists)
+    fn env_digest() -> Vec<String> {
+        ["plain", "\x1b[1;31;44mtest\x1b[0m\nline", "\x1b[38;5;208;48;2;1;2;3ma<&>\x1b[7mb", "\x1b[4:3;58;5;9mu\x1b[m"].iter().map(|t| anstyle_svg::Term::new().render_svg(t)).collect::<Vec<String>>()
+    }
+    if let Err(m) = vexplore::util::env_independence(env_digest) {
+        out.findings.push(Finding {
+            system: "anstyle_svg::Term::render_svg".into(),
+            clause: "environment-dependence".into(),
+            case: vec!["representative inputs".into()],
+            message: m.chars().take(900).collect(),
+            replay: serde_json::json!({"kind":"env"}),
+        });
+    }
     let quick = ctx.quick();
     // multi-attribute sequences with attributes after `4` / `38;5;n` / `38;2;r;g;b`: on by default,
     // `--opt multi=off` leaves them out
@@ -1159,6 +1173,7 @@ fn replay(v: &serde_json::Value) -> Result<(), String> {
                 None => Ok(()),
             }
         }
+        "env" => Err("environment-dependence findings are replayed by re-running the check".into()),
         k => Err(format!("unknown replay kind {k}")),
     }
 }
